@@ -25,13 +25,13 @@ SPEC = {
     'known_aliases': ['Wcbor', 'Wmsgpack', 'Wsimple', 'Wbinc', 'Wjson'],
     'eval_timeout': {'quick': 600, 'thorough': 2400},
     'assumptions': [
-        'time and memory are MODEL counts in the theorems (fuel / steps of the wire models, allocation requests of C02/Alloc.v); the harness measures the real ones (/gc/heap/allocs:bytes delta, wall clock) against K0 + K1*len and K2 + K3*len with generous constants: K0 = 70 MB + levels*max(1024,MaxInitLen)*2*unit (+ reader buffer), K1 = 1024 + 8*unit, K2 = 0.4 s, K3 = 50 us/byte; unit = largest element size of the destination type (48 for interface{} containers), levels = MaxDepth for interface{}/Raw/recursive types else the static container depth',
+        'time and memory are MODEL counts in the theorems (fuel of the wire models, steps of the walker skeleton C02/Steps.v, allocation requests of the run model C02/Alloc.v whose premises wf are the decoder invariants proved elsewhere (progress: W*_progress, depth: C14) or read off kSlice/kMap (pre-sizing by decInferLen, growth by append) and are NOT derived from the wire models inside Coq); the harness measures the real ones (/gc/heap/allocs:bytes delta, wall clock) against K0 + K1*len and K2 + K3*len with generous constants: K0 = 70 MB + levels*max(1024,MaxInitLen)*2*unit (+ reader buffer), K1 = 1024 + 8*unit, K2 = 0.4 s, K3 = 50 us/byte; unit = largest element size of the destination type (48 for interface{} containers), levels = MaxDepth for interface{}/Raw/recursive types else the static container depth',
         'the 64 MB in K0 is usableByteSlice: an array head claiming n elements decoded as bytes (into []byte or string destinations, map keys, struct field names) allocates min(n, 64 MB) before the first element is read; every other claimed length is capped by decInferLen at max(1024, MaxInitLen) elements',
         'workers run with RLIMIT_AS = 6 GB and debug.SetMaxStack(64 MB); a fatal exit or a stall beyond 20 s + 0.2 ms per input byte is attributed to the input being decoded',
         'the wire models cover Decode(&interface{}) and Decode(&Raw) from []byte for cbor, msgpack, simple, binc (outcome class + NumBytesRead compared as Coq cases); typed destinations, io.Reader transports, the other option flags and json are covered by the oracle only',
         'msgpack model cases run with MapValueReset=true (the wire model assumption); repeated map keys are outside the cbor/simple/binc models and not compared',
     ],
-    'trusted_extra': ['modelled, not verified: the four wire models; decInferLen / usableByteSlice / maxInitLen as transcribed in C02/Alloc.v (decInferLen itself is the translated Gen/Leaf.v function); GC, real memory, wall time and the recover at the Decode boundary are runtime'],
+    'trusted_extra': ['modelled, not verified: the four wire models; decInferLen / usableByteSlice / maxInitLen as transcribed by hand in C02/Alloc.v (the translator does not handle decInferLen's local const block) and tied by the leaf stream through the hook VerifC02DecInferLen / VerifC02UsableByteSliceLen; GC, real memory, wall time and the recover at the Decode boundary are runtime'],
     'harness_timeout': {'quick': 400, 'thorough': 2400},
 }
 
@@ -42,7 +42,7 @@ def main(chk):
 
 MANIFEST = {
     'category': 'proof',
-    'technique': 'Coq: per format, decoding any byte list with fuel linear in its length never runs out of fuel (assembled by exact from the wire-layer totality lemmas), every exceptional outcome is an Err class the Decode boundary recovers, step and allocation-request counts of instrumented models are linear in the input length with the caps of decInferLen / usableByteSlice / MaxInitLen (constants from Gen/Consts.v, decInferLen from Gen/Leaf.v); vm_compute correspondence of outcome class and NumBytesRead on hostile inputs; API-level oracle in subprocess workers (address-space limit, stack cap, watchdog) over format x destination x options x transport with hostile lengths in every length position, truncations, byte flips, random bytes and all 65792 one- and two-byte inputs',
-    'text': 'PARTIAL. Proved on the models (every byte list, option vector): C02_*_terminates (fuel K*(len+1) suffices, never OutOfFuel) for cbor, msgpack, simple, binc on the interface{} path and the skip/Raw walker; C02_only_recoverable; C02_*_steps / C02_alloc on the instrumented C02 models (see Properties/C02.v for which are partial). The model decides termination, step and allocation-request COUNTS; real time, GC, resident memory, the panic->error recover and memory safety of unsafe are runtime and are only observed by the harness. Typed destinations, io.Reader and json: harness oracle only.',
+    'technique': 'Coq: per format, decoding any byte list with fuel linear in its length never runs out of fuel (assembled by exact from the wire-layer totality lemmas), every exceptional outcome is an Err class the Decode boundary recovers, step and allocation-request counts of instrumented models are linear in the input length with the caps of decInferLen / usableByteSlice / MaxInitLen (containerLenNil from Gen/Consts.v; decInferLen / usableByteSlice transcribed by hand and tied by a leaf correspondence stream); vm_compute correspondence of outcome class and NumBytesRead on hostile inputs; API-level oracle in subprocess workers (address-space limit, stack cap, watchdog) over format x destination x options x transport with hostile lengths in every length position, truncations, byte flips, random bytes and all 65792 one- and two-byte inputs',
+    'text': 'PARTIAL. Proved on the models (every byte list, option vector): C02_*_terminates (fuel K*(len+1) suffices, never OutOfFuel) for cbor, msgpack, simple, binc on the interface{} path and the skip/Raw walker; C02_only_recoverable; C02_alloc (allocation requests of every run tree satisfying the decoder's invariants <= MaxDepth*max(1024,MaxInitLen)*U + (KL+64+13U)*len, whatever lengths are claimed); C02_walker_steps_partial (a step-counting skeleton of the recursive walkers takes <= 4*len+2 steps for EVERY progressing head parser; not instantiated per format: there is no per-format C02_F_steps, the wire models expose fuel, not steps); C02_json_skip_terminates_partial (json: skip scanner only). The model decides termination, step and allocation-request COUNTS; real time, GC, resident memory, the panic->error recover and memory safety of unsafe are runtime and are only observed by the harness. Typed destinations, io.Reader and json: harness oracle only.',
     'note': 'K0 is large by design of the code (64 MB usableByteSlice cap; MaxDepth * 1024 elements pre-sized per open container): the allocation oracle flags only gross violations (an uncapped claimed length). Trusted: Coq kernel, hand-written models, translator for decInferLen, harness and its constants.',
 }
